@@ -40,9 +40,32 @@ OPTION_POOL = [
     ('tries1', ['--tries', '1']), ('tries3', ['--tries', '3']), ('tries0', ['--tries', '0']),
     ('https_only', ['--https-only']),
     ('follow_ftp', ['--follow-ftp']),
+    # the same list options as a user writes them: blanks after the commas
+    ('domains_sp', ['--domains', 'a.test, c.test']),
+    ('exclude_domains_sp', ['--exclude-domains', 'x.test, sub.a.test']),
+    ('hostnames_sp', ['--hostnames', 'a.test , b.test']),
+    ('exclude_hostnames_sp', ['--exclude-hostnames', 'x.test, b.test']),
+    ('exclude_dirs_sp', ['--exclude-directories', '/nothing, /dir/private, /cgi-*']),
+    ('reject_sp', ['--reject', 'bak, zip, tmp*']),
 ]
 EXCLUSIVE = [('level1', 'level2', 'level0'), ('prl1', 'prl2', 'prl0'), ('sha_pr', 'sha_lp', 'sha_both'),
-             ('tries1', 'tries3', 'tries0')]
+             ('tries1', 'tries3', 'tries0'), ('domains', 'domains_sp'), ('exclude_domains', 'exclude_domains_sp'),
+             ('hostnames', 'hostnames_sp'), ('exclude_hostnames', 'exclude_hostnames_sp'), ('exclude_dirs', 'exclude_dirs_sp'),
+             ('reject', 'reject_sp')]
+LIST_OPTIONS = {'--domains': 'domains', '--exclude-domains': 'exclude_domains', '--hostnames': 'hostnames',
+                '--exclude-hostnames': 'exclude_hostnames', '--include-directories': 'include_directories',
+                '--exclude-directories': 'exclude_directories', '--accept': 'accept', '--reject': 'reject',
+                '--span-hosts-allow': 'span_hosts_allow'}
+
+
+def independent_lists(argv):
+    '''The comma-separated list options as the reference reads them (its own split, blanks around items ignored), so that
+    the reference does not inherit what wpull's option parser made of them.'''
+    out = {}
+    for i, a in enumerate(argv[:-1]):
+        if a in LIST_OPTIONS:
+            out[LIST_OPTIONS[a]] = [x.strip() for x in argv[i + 1].split(',') if x.strip()]
+    return out
 
 
 def opts_from_args(args):
@@ -184,6 +207,7 @@ def worker(job):
             part.count('option_sets_rejected_by_parser')
             continue
         opts = opts_from_args(args)
+        opts.update(independent_lists(argv))
         start_hostnames = set(refscope.split(u)['hostname'] for u in start_urls)
         part.count('option_sets')
         pairs = fixed or ([(None, None)] * job['per_set'] + directed_pairs(rng, opts, job['per_set'] * 6))
